@@ -69,10 +69,12 @@ void RefOperator::build(const PolarGrid& grid, const DomainGeometry& geo, const 
         for (size_t q = 0; q < row.col.size(); q++)
             if (row.col[q] == col) {
                 row.val[q] += v;
+                row.aval[q] += std::fabs(v);
                 return;
             }
         row.col.push_back(col);
         row.val.push_back(v);
+        row.aval.push_back(std::fabs(v));
     };
     for (int i = 0; i < nr; i++)
         for (int j = 0; j < ntheta; j++) {
@@ -118,11 +120,15 @@ void RefOperator::build(const PolarGrid& grid, const DomainGeometry& geo, const 
             add(row, c, wl + wr + wb + wt);
             // mixed derivative terms
             if (i > 0) {
-                add(row, bl, -0.25 * (art[l] + art[b]));
-                add(row, tl, +0.25 * (art[l] + art[t]));
+                add(row, bl, -0.25 * art[l]);
+                add(row, bl, -0.25 * art[b]);
+                add(row, tl, +0.25 * art[l]);
+                add(row, tl, +0.25 * art[t]);
             }
-            add(row, br, +0.25 * (art[rgt] + art[b]));
-            add(row, tr, -0.25 * (art[rgt] + art[t]));
+            add(row, br, +0.25 * art[rgt]);
+            add(row, br, +0.25 * art[b]);
+            add(row, tr, -0.25 * art[rgt]);
+            add(row, tr, -0.25 * art[t]);
         }
 }
 
@@ -145,7 +151,7 @@ void RefOperator::apply_abs(const std::vector<double>& x, std::vector<double>& y
         long double s        = 0;
         const SparseRow& row = rows[m];
         for (size_t q = 0; q < row.col.size(); q++)
-            s += std::fabs((long double)row.val[q]) * std::fabs((long double)x[row.col[q]]);
+            s += (long double)row.aval[q] * std::fabs((long double)x[row.col[q]]);
         y[m] = (double)s;
     }
 }
